@@ -117,6 +117,13 @@ def run_case(case):
     got = float(m.score(model, copy.deepcopy(stats)))
     c.transitions += 1
     c.close(got, want, "score", "score(model, probe) vs frame-normalised linear score with the UBM shifted by U x", tags, scale=scale, rtol=1e-8)
+    # the same probe objects scored again (and by the other entry points below) must give the same score
+    shared = copy.deepcopy(stats)
+    s1 = float(m.score(model, shared))
+    s2 = float(m.score(model, shared))
+    c.check(s1 == s2, "rescore", f"scoring the same probe objects twice gives {s1!r} then {s2!r}", tags)
+    c.close(s2, want, "rescore", "second score of the same probe objects vs reference", tags, scale=scale, rtol=1e-8)
+    c.transitions += 2
     # estimate_x / estimate_ux
     ex = np.asarray(m.estimate_x(copy.deepcopy(stats)), float)
     c.close(ex, x, "estimate_x", "estimate_x vs posterior mean given the pooled statistics", tags, rtol=1e-8, scale=1.0)
